@@ -20,9 +20,10 @@ def bounded_only(prop, name, why):
 
 
 class LoopSpec:
-    def __init__(self, inv, sorts=None):
+    def __init__(self, inv, sorts=None, kinds=None):
         self.inv = inv
         self.sorts = sorts or {}     # element sorts of list-valued loop-carried variables
+        self.kinds = kinds or {}     # role of every local the invariant names: "set" | "list" | "dict" | "array" (renaming-proof)
 
 
 class Contract:
